@@ -763,16 +763,6 @@ fn hook(ev: &ListEvent<'_>) {
             let probe = Probe(unsafe { std::mem::transmute::<*const (dyn Fn() -> bool + '_), *const (dyn Fn() -> bool + 'static)>(p) });
             park(s, generation, me, Point::Lock { list: *list, probe });
         }
-        ListEvent::PointerEscaped { addr, size } => {
-            let act = s.threads[me].cur_act.unwrap_or(Act::CloneH);
-            s.live.push(LivePtr { thread: me, addr: *addr, size: (*size).max(1), act });
-            park(s, generation, me, Point::Escaped);
-        }
-        ListEvent::PointerDone { addr } => {
-            if let Some(i) = s.live.iter().position(|p| p.thread == me && p.addr == *addr) {
-                s.live.remove(i);
-            }
-        }
         ListEvent::BufferReleased { addr, bytes } => {
             s.releases += 1;
             let hit = s.live.iter().find(|p| p.addr >= *addr && p.addr < *addr + *bytes).cloned();
